@@ -11,6 +11,7 @@ field is compared whenever the code object exposes it, whatever the spec predict
 """
 from __future__ import annotations
 
+import json
 import math
 import os
 import sys
@@ -373,30 +374,43 @@ class Replayer:
         self.calls = 0
         self.counters = {}
         self.extra_ctx = {}
+        self.jit_cache = {}
 
     def call(self, fn, st):
         if self.mode != "jit" or st["act"] in NOJIT:
             return fn(self, st)
         ids = [st["a"][k] for k in OPERAND_KEYS if isinstance(st["a"].get(k), int) and st["a"][k] in self.heap]
         ops = {i: self.heap[i] for i in ids}
-        box = {}
+        # One jitted function per (action, plain arguments): like user code that jits a function once and calls it with
+        # many objects.  Steps of different behaviours with the same signature share the compiled function, so a stale
+        # compilation-cache hit (equal treedefs for objects that differ in static data) shows up as a value mismatch.
+        key = json.dumps([st["act"], st["a"]], sort_keys=True)
+        entry = self.jit_cache.get(key)
+        if entry is None:
+            box = {}
 
-        def g(ops_in):
-            saved = {i: self.heap[i] for i in ops_in}
-            self.heap.update(ops_in)
-            try:
-                new, ret = fn(self, st)
-                after = {i: self.heap[i] for i in ops_in}     # operands as left by the call (caches filled, mutated)
-            finally:
-                self.heap.update(saved)
-            val = None
-            if ret is not None:
-                box["kind"] = ret[0]
-                box["chk"] = ret[2] if len(ret) > 2 else None
-                val = ret[1]
-            return after, new, val
+            def g(ops_in):
+                saved = {i: self.heap[i] for i in ops_in}
+                self.heap.update(ops_in)
+                try:
+                    new, ret = fn(self, st)
+                    after = {i: self.heap[i] for i in ops_in}     # operands as left by the call (caches filled, mutated)
+                finally:
+                    self.heap.update(saved)
+                val = None
+                if ret is not None:
+                    box["kind"] = ret[0]
+                    box["chk"] = ret[2] if len(ret) > 2 else None
+                    val = ret[1]
+                return after, new, val
 
-        after, new, val = jax.jit(g)(ops)
+            entry = (jax.jit(g), box)
+            if len(self.jit_cache) < 5000:
+                self.jit_cache[key] = entry
+        else:
+            self.count("jit_function_reused")
+        jg, box = entry
+        after, new, val = jg(ops)
         self.count("jit_steps")
         self.heap.update(after)
         if "kind" not in box:
